@@ -37,6 +37,7 @@ func runC08(r *an.Run) {
 	r.Rule("R6-schema-comparable")
 	schemaComparable(r)
 	c08BacktrackingMemoised(r)
+	memoDependencies(r, "R7-backtracking-is-memoised")
 	c08TypedNil(r)
 }
 
